@@ -157,6 +157,14 @@ CHECKS = {
         note="Real processes: the enumerated dimensions are covered exhaustively, the OS schedule inside a scenario is not controlled; a watchdog verdict is re-run once before being reported. The mid-send hang is a known finding. Requires the guarded hook commit in /repo (JOBLIB_VERIF_HOOKS).",
         design_ref="1.5, 2/C10, 3",
     ),
+    "C15": dict(
+        category="exploration",
+        engine="simulated machine (attribute rebinding) + gate tasks on real pools",
+        technique="exhaustive enumeration of simulated machines x n_jobs values for the arithmetic, and of gate release orders x (backend, n_jobs, N) and nesting shapes on real pools with an exact running-task counter",
+        text="(a) cpu_count() over ~1200 simulated machines (os.cpu_count incl. None, affinity, cgroup v1/v2 quota files, LOKY_MAX_CPU_COUNT) equals max(1, min(limits)); effective_n_jobs of every backend and of Parallel for every n_jobs in [-2c, 2c]; n_jobs=1 runs in the calling thread. (b) gate tasks that cannot finish before the controller releases them give an exact high-water mark of simultaneously running tasks, for every release order (DFS) on the threading backend and on loky / multiprocessing in isolated sessions. (c) trees of (pid, thread, active backend) observed by nested default Parallel calls up to depth 3 under each outer backend: no process beyond the outer pool, first nested level on <= n_jobs threads, deeper levels in the parent's thread.",
+        note="(b) and (c) run real thread / process pools: what is exhaustive is the configuration space and the release orders; the OS schedule is not controlled, but the counter cannot raise a false alarm and an over-sized pool is observed as soon as its extra worker picks a task. (a) rebinds names inside loky.backend.context / _parallel_backends.",
+        design_ref="2/C15",
+    ),
 }
 
 NOT_BUILT_REASON = "check not built yet in this revision of /verif (planned in DESIGN.md section 2; model checking applies)"
